@@ -216,8 +216,16 @@ def _lc_variant(spec, maxc, scan_loop=True, tbb=False):
                " && ALLC(qm, (qm > k && qm < l) ==> PAR(support[qm] & cyclek) == 0) && %s)\n__CPROVER_decreases(csd - l)" % (orth % "k + 1"))
     if tbb:
         # concurrent initialisation lowered to one task over the whole range (push position vp_pos), update lowered likewise (loop variable i, bound e)
-        inv_init = ("__CPROVER_assigns(i, vp_pos, __CPROVER_object_whole(support))\n__CPROVER_loop_invariant(vp_rb <= i && i <= vp_re && vp_re == csd && vp_rb == 0 && vp_pos == i)\n__CPROVER_decreases(vp_re - i)")
-        inv_upd = inv_upd.replace("__CPROVER_assigns(l,", "__CPROVER_assigns(i,").replace("k + 1 <= l && l <= csd", "k + 1 <= i && i <= csd && e == csd && vp_re == csd").replace("qm < l)", "qm < i)").replace("__CPROVER_decreases(csd - l)", "__CPROVER_decreases(csd - i)")
+        # the names of the task-local loop variable / bound are read from the lowered headers (they are locals of the lambda bodies)
+        import re
+        hs = [body[x:y + 1] for x, y in X.loops(body)]
+        mi = re.match(r"for \(size_t (\w+) = vp_rb; \1 != vp_re; \1\+\+\)$", hs[0]) if hs else None
+        mu = re.match(r"for \(size_t (\w+) = vp_rb; \1 != (\w+); \1\+\+\)$", hs[-1]) if hs else None
+        if not mi or not mu:
+            raise Undecided("extraction out of date: shape of the task loops of mcb_sva_signed_tbb (%s)" % "; ".join(h[:60] for h in hs))
+        iv, (uv, ue) = mi.group(1), mu.groups()
+        inv_init = ("__CPROVER_assigns(%(i)s, vp_pos, __CPROVER_object_whole(support))\n__CPROVER_loop_invariant(vp_rb <= %(i)s && %(i)s <= vp_re && vp_re == csd && vp_rb == 0 && vp_pos == %(i)s)\n__CPROVER_decreases(vp_re - %(i)s)" % dict(i=iv))
+        inv_upd = inv_upd.replace("__CPROVER_assigns(l,", "__CPROVER_assigns(%s," % uv).replace("k + 1 <= l && l <= csd", "k + 1 <= %s && %s <= csd && %s == csd && vp_re == csd" % (uv, uv, ue)).replace("qm < l)", "qm < %s)" % uv).replace("__CPROVER_decreases(csd - l)", "__CPROVER_decreases(csd - %s)" % uv)
     contracts = {0: inv_init, 1: inv_main, 2: inv_scan, 3: inv_upd} if scan_loop else {0: inv_init, 1: inv_main, 2: inv_upd}
     log = list(spec.get("rewrites", []))
     if len(X.loops(body)) != len(contracts):
